@@ -148,6 +148,27 @@ class MountsModel:
     def m_values(self, interp, obj, args, kwargs, fr):
         raise __import__("pyvc.ctx", fromlist=["Unsupported"]).Unsupported("mounts.values()")
 
+    def m_get(self, interp, obj, args, kwargs, fr):
+        """mounts.get(key[, default]): the application mounted exactly at `key` (the abstract
+        callable of its position), or the default when no mount has that key"""
+        import z3
+
+        from .sym import SObj, str_to_z3
+
+        ctx = interp.ctx
+        key = str_to_z3(args[0])
+        ks = obj.fields["keys"]
+        if ctx.choose(2, f"mounts.get@{fr.line}", ["hit", "miss"]) == 0:
+            j = ctx.fresh("_mount_j", z3.IntSort())
+            ctx.assume(z3.And(j >= 0, j < z3.Length(ks), ks[j] == key))
+            # a dict has one entry per key: no other position holds it
+            ctx.assume_forall(lambda i: z3.Implies(z3.And(i >= 0, i < z3.Length(ks), i != j), ks[i] != key))
+            ctx.add_key(j)
+            interp.loop_index_value = j
+            return SObj("pyvc:Callable", {"record": "mounted_app", "raises": [], "returns": None, "yields": True, "index": j}, tag="mounted_app")
+        ctx.assume_forall(lambda i: z3.Implies(z3.And(i >= 0, i < z3.Length(ks)), ks[i] != key))
+        return args[1] if len(args) > 1 else None
+
 
 class _MountItemsSource:
     def __init__(self, mounts):
